@@ -50,12 +50,20 @@ def write_index():
 
 
 def main():
-    want = sys.argv[1:]
+    want = [a for a in sys.argv[1:] if not a.startswith("--")]
+    jobs = next((int(a.split("=", 1)[1]) for a in sys.argv[1:] if a.startswith("--jobs=")), 1)
+    names = [n for n in sorted(os.listdir(SEEDED))
+             if os.path.isdir(os.path.join(SEEDED, n)) and (not want or any(n.startswith(w) for w in want))]
+    results = {}
+    if jobs > 1:
+        from concurrent.futures import ThreadPoolExecutor
+
+        os.environ["VERIF_WORKERS"] = str(max(2, 16 // jobs))
+        with ThreadPoolExecutor(jobs) as ex:
+            results = dict(zip(names, ex.map(lambda n: run(os.path.join(SEEDED, n, "patch.diff")), names)))
     rows = []
-    for name in sorted(os.listdir(SEEDED)):
+    for name in names:
         d = os.path.join(SEEDED, name)
-        if not os.path.isdir(d) or (want and not any(name.startswith(w) for w in want)):
-            continue
         agent = {}
         ap = os.path.join(d, "agent_meta.json")
         if os.path.exists(ap):
@@ -63,7 +71,7 @@ def main():
                 agent = json.load(open(ap))
             except ValueError:
                 agent = {}
-        res = run(os.path.join(d, "patch.diff"))
+        res = results[name] if name in results else run(os.path.join(d, "patch.diff"))
         meta = {
             "id": name,
             "property": "C14",
@@ -71,7 +79,7 @@ def main():
             "needs_to_manifest": agent.get("needs", ""),
             "files": agent.get("files", []),
             "origin": "written by hand: a change under which the property still holds (see why.txt)",
-            "what_was_run": "tools/run_seeded.py: patch applied to a scratch copy of /repo/src, then `checks/c14.py --tier quick --no-evidence` with CHMPY_VERIF_SRC pointing at the copy",
+            "what_was_run": "tools/run_benign.py: patch applied to a scratch copy of /repo/src, then `checks/c14.py --tier quick --no-evidence` with CHMPY_VERIF_SRC pointing at the copy",
             "result": res,
             "quiet": res.get("exit") == 0,
         }
